@@ -37,6 +37,15 @@ def _dominance_lambda(fi: FuncInfo, name: str, prog: Optional[Program] = None, c
         if isinstance(n, ast.Assign) and len(n.targets) == 1 and isinstance(n.targets[0], ast.Name) \
                 and n.targets[0].id == name and isinstance(n.value, ast.Lambda):
             return [a.arg for a in n.value.args.args], n.value.body
+    # a local alias of a method: `dominates = self._dominates`
+    for n in own_nodes(fi.node):
+        if isinstance(n, ast.Assign) and len(n.targets) == 1 and isinstance(n.targets[0], ast.Name) and n.targets[0].id == name \
+                and isinstance(n.value, ast.Attribute) and isinstance(n.value.value, ast.Name) and n.value.value.id in ("self", "cls") and prog is not None and fi.cls is not None:
+            m = prog.lookup_method(fi.cls, n.value.attr)
+            if m is not None:
+                b = _pred_body(m)
+                ps = [p for p in m.params if p not in ("self", "cls")]
+                return (ps, b) if b is not None else None
     if prog is not None and call is not None:
         tg = [t for t in prog.resolve_call_target(fi, call) if isinstance(t, FuncInfo)]
         if len(tg) == 1 and tg[0].module.name == fi.module.name:
@@ -96,6 +105,11 @@ def _dominance_formula(params: List[str], body: ast.AST) -> Optional[set]:
 
 
 WANT_DOM = {("<=", (0, 0), (1, 0)), ("<=", (0, 1), (1, 1))}
+
+
+def _nolog(body):
+    """statements of a block without logging calls (they neither read nor change the filter)."""
+    return [b for b in body if not (isinstance(b, ast.Expr) and isinstance(b.value, ast.Call) and (dotted(b.value.func) or "").startswith("logger."))]
 
 
 class _Pred:
@@ -220,7 +234,7 @@ def run(prog: Program, rep, tier: str) -> None:
             a, b = role(e.args[0], elem_names), role(e.args[1], elem_names)
             if a and b:
                 return _Pred(a, b, positive)
-        if pname is None and isinstance(e, (ast.BoolOp, ast.Compare)):
+        if pname is None and isinstance(e, (ast.BoolOp, ast.Compare, ast.IfExp)):
             return inline_pred(e, elem_names, positive)
         return None
 
@@ -275,14 +289,15 @@ def run(prog: Program, rep, tier: str) -> None:
                 elem = {n.id for n in ast.walk(g.generators[0].target) if isinstance(n, ast.Name)}
                 pu = pred_use(g.elt, elem)
                 ret_false = len(st.body) >= 1 and isinstance(st.body[-1], ast.Return) and isinstance(st.body[-1].value, ast.Constant) and st.body[-1].value.value is False
-                if pu is not None and ret_false and len(st.body) == 1 and not st.orelse:
+                if pu is not None and ret_false and len(_nolog(st.body)) == 1 and not st.orelse:
                     refusal = (si.index, pu, st)
         # form B: for e in self.entries: if dominates(e, new): return False
         if isinstance(st, ast.For) and iter_is_entries(st.iter) and len(st.body) == 1 and isinstance(st.body[0], ast.If) and not st.orelse:
             inner = st.body[0]
             elem = {n.id for n in ast.walk(st.target) if isinstance(n, ast.Name)}
             pu = pred_use(inner.test, elem)
-            ret_false = len(inner.body) == 1 and isinstance(inner.body[0], ast.Return) and isinstance(inner.body[0].value, ast.Constant) and inner.body[0].value.value is False
+            ib = _nolog(inner.body)
+            ret_false = len(ib) == 1 and isinstance(ib[0], ast.Return) and isinstance(ib[0].value, ast.Constant) and ib[0].value.value is False
             if pu is not None and ret_false and not inner.orelse:
                 refusal = (si.index, pu, st)
         if refusal:
@@ -349,6 +364,21 @@ def run(prog: Program, rep, tier: str) -> None:
             if len(kept_new) == 1 and len(others) == 1:
                 others = []
                 appends.append((kept_new[0], "new"))
+            if len(inits) == 1 and isinstance(inits[0].stmt.value, ast.ListComp) and inits[0].index > ridx and not fills:
+                # kept = [e for e in self.entries if not dominates(new, e)] ; (kept.append(new)) ; self.entries = kept
+                g = inits[0].stmt.value
+                if len(g.generators) == 1 and iter_is_entries(g.generators[0].iter) and len(g.generators[0].ifs) == 1 \
+                        and isinstance(g.elt, ast.Name) and isinstance(g.generators[0].target, ast.Name) and g.elt.id == g.generators[0].target.id:
+                    pu = pred_use(g.generators[0].ifs[0], {g.elt.id})
+                    others = [q for q in ff.order for m in ([q.stmt] if not isinstance(q.stmt, (ast.For, ast.If, ast.While)) else []) for k in ast.walk(m)
+                              if isinstance(k, ast.Call) and isinstance(k.func, ast.Attribute) and U(k.func.value) == kept]
+                    kept_new = [q for q in others if isinstance(q.stmt, ast.Expr) and isinstance(q.stmt.value, ast.Call) and q.stmt.value.func.attr == "append" and len(q.stmt.value.args) == 1
+                                and role(q.stmt.value.args[0], set()) == "new" and not q.loops and inits[0].index < q.index < si.index]
+                    if pu is not None and len(others) == len(kept_new) <= 1:
+                        removal = (inits[0].index, _Pred(pu.first, pu.second, not pu.positive), inits[0].stmt)
+                        stores = [(i, x) for i, x in stores if x is not st]
+                        for q in kept_new:
+                            appends.append((q, "new"))
             if len(inits) == 1 and isinstance(inits[0].stmt.value, ast.List) and not inits[0].stmt.value.elts and inits[0].index > ridx and len(fills) == 1 \
                     and inits[0].index < fills[0].index < si.index and not others and iter_is_entries(fills[0].stmt.iter) and not fills[0].stmt.orelse:
                 lp_ = fills[0].stmt
